@@ -9,21 +9,19 @@ Import ListNotations.
 Close Scope Q_scope.
 Open Scope R_scope.
 
-Lemma b23p_pos tk : 623 <= tk <= 862 -> 16000000 <= b23p_val n23 tk.
-Proof. intros H. expose23. interval with (i_bisect tk, i_depth 12). Qed.
-Lemma sat_cap_8 tk : 525 <= tk <= 550 -> sat_val n4 tk <= 6121000.
+Lemma sat_cap_0 tk : 13657/50 <= tk <= 300 -> sat_val n4 tk <= 4000.
 Proof. intros H. expose. interval with (i_bisect tk, i_depth 14). Qed.
-Lemma sat_cap_9 tk : 550 <= tk <= 575 -> sat_val n4 tk <= 8819000.
+Lemma sat_cap_1 tk : 300 <= tk <= 330 -> sat_val n4 tk <= 18000.
 Proof. intros H. expose. interval with (i_bisect tk, i_depth 14). Qed.
-Lemma sat_cap_10 tk : 575 <= tk <= 1175/2 -> sat_val n4 tk <= 10470000.
+Lemma sat_cap_2 tk : 330 <= tk <= 360 -> sat_val n4 tk <= 63000.
 Proof. intros H. expose. interval with (i_bisect tk, i_depth 14). Qed.
-Lemma sat_cap_11 tk : 1175/2 <= tk <= 600 -> sat_val n4 tk <= 12351000.
+Lemma sat_cap_3 tk : 360 <= tk <= 400 -> sat_val n4 tk <= 246000.
 Proof. intros H. expose. interval with (i_bisect tk, i_depth 14). Qed.
-Lemma sat_cap_12 tk : 600 <= tk <= 612 -> sat_val n4 tk <= 14398000.
+Lemma sat_cap_4 tk : 400 <= tk <= 450 -> sat_val n4 tk <= 933000.
 Proof. intros H. expose. interval with (i_bisect tk, i_depth 14). Qed.
-Lemma sat_cap_13 tk : 612 <= tk <= 618 -> sat_val n4 tk <= 15520000.
+Lemma sat_cap_5 tk : 450 <= tk <= 475 -> sat_val n4 tk <= 1617000.
 Proof. intros H. expose. interval with (i_bisect tk, i_depth 14). Qed.
-Lemma sat_cap_14 tk : 618 <= tk <= 12463/20 -> sat_val n4 tk <= 16538000.
+Lemma sat_cap_6 tk : 475 <= tk <= 500 -> sat_val n4 tk <= 2641000.
 Proof. intros H. expose. interval with (i_bisect tk, i_depth 14). Qed.
-Lemma b23_cap_last tk : 62314/100 <= tk <= 62315/100 -> b23p_val n23 tk <= 16538000.
-Proof. intros H. expose23. interval with (i_bisect tk, i_depth 12). Qed.
+Lemma sat_cap_7 tk : 500 <= tk <= 525 -> sat_val n4 tk <= 4104000.
+Proof. intros H. expose. interval with (i_bisect tk, i_depth 14). Qed.
